@@ -34,7 +34,7 @@ def _policy(n, seed):
     return ConstructivePolicy(Enc(), Dec(), env_name="tsp")
 
 
-def _rederive(seed, n, seq, forced_first, tag=0.0):
+def _rederive(seed, n, seq, forced_first, tag=0.0, temperature=1.0):
     avail, first, cur = [True] * n, None, None
     steps = []
     for t, a in enumerate(seq):
@@ -42,12 +42,12 @@ def _rederive(seed, n, seq, forced_first, tag=0.0):
             if forced_first:
                 steps.append(0.0)
             else:
-                lg = _table_logits(seed, n, 0, 0, avail, tag)
+                lg = _table_logits(seed, n, 0, 0, avail, tag) / temperature
                 steps.append(float(torch.log_softmax(lg.masked_fill(~torch.tensor(avail), -math.inf), -1)[a]))
             first = cur = a
             avail = [j != a for j in range(n)]
             continue
-        lg = _table_logits(seed, n, first, cur, avail, tag)
+        lg = _table_logits(seed, n, first, cur, avail, tag) / temperature
         steps.append(float(torch.log_softmax(lg.masked_fill(~torch.tensor(avail), -math.inf), -1)[a]))
         avail[a] = False
         cur = a
@@ -66,20 +66,30 @@ def run_ll(p):
             env = TSPEnv(generator_params={"num_loc": n}, check_solution=False)
             pol = _policy(n, seed)
             td = env.reset(TensorDict({"locs": torch.rand(B, n, 2)}, batch_size=[B]))
+            temp, flagged = p.get("temperature", 1.0), p.get("flagged", False)
+            flags = torch.rand(B, n) > 0.4
+            if flagged:
+                td.set("mask", flags)
             kw = {"num_starts": p.get("num_starts") or n} if multi else {}
+            if temp != 1.0:
+                kw["temperature"] = temp
             out = pol(td.clone(), env, phase="test", decode_type=dt, **kw)
             acts, ll = out["actions"], out["log_likelihood"]
+
+            def keep(r, st):
+                return [x if (not flagged or bool(flags[r % B, t])) else 0.0 for t, x in enumerate(st)]
+
             for r in range(acts.shape[0]):
                 seq = acts[r].tolist()
                 if sorted(seq) != list(range(n)):
                     bad.append(f"seed {seed} row {r}: actions {seq} are not a permutation")
-                st = _rederive(seed, n, seq, multi, tag=td["locs"][r % B, 0, 0])
+                st = keep(r, _rederive(seed, n, seq, multi, tag=td["locs"][r % B, 0, 0], temperature=temp))
                 if abs(sum(st) - float(ll[r])) > 1e-4:
                     bad.append(f"seed {seed} row {r}: returned log-likelihood {float(ll[r]):.5f} != sum of step log-probs of the returned actions {sum(st):.5f}")
             if not multi:
-                out2 = pol(td.clone(), env, phase="train", actions=acts, return_entropy=True, return_sum_log_likelihood=False)
+                out2 = pol(td.clone(), env, phase="train", actions=acts, return_entropy=True, return_sum_log_likelihood=False, **({"temperature": temp} if temp != 1.0 else {}))
                 for r in range(acts.shape[0]):
-                    st = _rederive(seed, n, acts[r].tolist(), False, tag=td["locs"][r % B, 0, 0])
+                    st = keep(r, _rederive(seed, n, acts[r].tolist(), False, tag=td["locs"][r % B, 0, 0], temperature=temp))
                     if any(abs(a - float(b)) > 1e-4 for a, b in zip(st, out2["log_likelihood"][r])):
                         bad.append(f"seed {seed} row {r}: evaluation log-probs {out2['log_likelihood'][r].tolist()} != re-derived {st}")
                     if abs(float(out2["reward"][r]) - float(out["reward"][r])) > 1e-5:
